@@ -892,6 +892,46 @@ impl World {
         }
     }
 
+    /// As [`run_until`], calling `cb` at every virtual instant after the daemons have settled
+    /// (scripted peers use it to react to what was just sent). `cb` returns true if it injected
+    /// something.
+    pub fn run_until_cb(&mut self, t_end: u64, cb: &mut dyn FnMut(&mut World) -> bool) {
+        loop {
+            self.settle();
+            let mut guard = 0;
+            while cb(self) && guard < 50 {
+                self.settle();
+                guard += 1;
+            }
+            let now = self.now();
+            if now >= t_end {
+                break;
+            }
+            // one step of run_until: advance to the next event but not beyond t_end
+            let mut next = t_end;
+            let mut wakes: Vec<Option<u64>> = Vec::with_capacity(self.hosts.len());
+            for h in 0..self.hosts.len() {
+                let w = self.next_wake(h);
+                if let Some(w) = w {
+                    next = next.min(w);
+                }
+                wakes.push(w);
+            }
+            for p in self.pending.iter() {
+                next = next.min(p.at.max(now + 1));
+            }
+            let next = next.max(now + 1).min(t_end.max(now + 1));
+            self.clock.store(next, Ordering::SeqCst);
+            for (h, w) in wakes.iter().enumerate() {
+                if let Some(w) = w {
+                    if *w <= next {
+                        self.hosts[h].needs_run = true;
+                    }
+                }
+            }
+        }
+    }
+
     pub fn run_for(&mut self, ms: u64) {
         let t = self.now() + ms;
         self.run_until(t);
